@@ -486,3 +486,5 @@ z3.RecAddDefinition(_IOTA, [_n], z3.If(_n <= 0, z3.Empty(IntSeq), z3.Concat(_IOT
 
 def iota(k):
     return _IOTA(k)
+
+dict_nonempty = z3.Function("dict_nonempty", z3.ArraySort(z3.StringSort(), z3.BoolSort()), z3.BoolSort())
